@@ -49,6 +49,8 @@ def gen_plan(rng, tier, config, opts):
             ln += ' pair=%d' % (1 + rng.below(1000))
         if name in ARRAY_OPS:
             ln += ' n=%d' % rng.choice(COUNTS)
+        if name.startswith('cap_'):
+            ln += ' cap=%d' % rng.choice([-17, -16, -2, -1, -1, 0, 0, 1, 16])
         lines.append(ln)
     return '\n'.join(lines) + '\n'
 
@@ -93,6 +95,20 @@ def check(plan, transcript, config, opts):
             out.probe('allocations-counted', int(d['A']))
             if d['thrown'] != '0' or d['code'] != '0':
                 out.fault('precision-or-argument-error-reported')
+        elif f[0] == 'CAP':
+            d = kv(f)
+            out.evals += 1
+            delta = int(d['delta'])
+            out.fault('output-capacity-' + ('short' if delta < 0 else 'exact' if delta == 0 else 'ample'))
+            out.keys.add((f[1], 'cap', delta, d['ok']))
+            if delta < 0 and d['ok'] == '1':
+                out.violate('C08', 'C08|capacity|short-buffer-not-reported|%s' % f[1],
+                            '%s reported success with an output buffer %d byte(s) shorter than the %s bytes it needs' % (f[1], -delta, d['need']))
+            if delta >= 0 and d['ok'] == '1' and d['same'] != '1':
+                out.violate('C08', 'C08|capacity|result-differs-with-exact-buffer|%s' % f[1],
+                            '%s gave a different result with a buffer of need%+d bytes' % (f[1], delta))
+            if delta >= 0 and d['ok'] != '1':
+                out.probe('sufficient-buffer-refused:' + f[1])
         elif f[0] == 'POST':
             d = kv(f)
             out.evals += 1
